@@ -100,7 +100,7 @@ pub fn run(opts: &Opts) -> i32 {
                         }
                     }
                 }
-                Run::Panic(p) => {
+                Run::Panic(p, _ptail) => {
                     rep.violation(Violation { signature: format!("{}: {}", role.name(), p.signature()), what: format!("panic: {} at {}", p.msg, p.location), replay: json!({"role": role.name(), "script": format!("{script:?}")}) });
                     retire = After::RetireThread;
                     break;
@@ -163,7 +163,7 @@ pub fn run(opts: &Opts) -> i32 {
                     }
                 }
             }
-            Run::Panic(p) => rep.violation(Violation { signature: format!("{}: {}", role.name(), p.signature()), what: format!("panic: {} at {}", p.msg, p.location), replay: json!({"seed": opts.seed, "index": i}) }),
+            Run::Panic(p, _ptail) => rep.violation(Violation { signature: format!("{}: {}", role.name(), p.signature()), what: format!("panic: {} at {}", p.msg, p.location), replay: json!({"seed": opts.seed, "index": i}) }),
             Run::Livelock(_tail) => rep.violation(Violation { signature: format!("{}: live-lock", role.name()), what: "step budget exhausted".into(), replay: json!({"seed": opts.seed, "index": i}) }),
             Run::Watchdog => rep.inconclusive("watchdog"),
         }
